@@ -150,6 +150,11 @@ let register (reg : string -> (string list -> string) -> unit) =
       let (kept, clean) = ack_pages psl O (nat_of_int (int_of_string t)) nn in
       string_of_int (int_of_nat kept) ^ " " ^ bool_tok clean ^ " " ^ string_of_int (int_of_nat (ack_skips psl kept nn))
     | _ -> failwith "args");
+  (* starts <P> <pos> <len> <len> ... : page index in which the header of each event starts *)
+  reg "starts" (fun a -> match a with
+    | ps :: pos :: lens ->
+      String.concat "," (List.map string_of_z (starts_fromZ (z_of_string ps) (z_of_string pos) (List.map z_of_string lens)))
+    | _ -> failwith "args");
   reg "pagescript" pagescript;
   reg "wqscript" wqscript;
   (* lockscript s p r op... : per op the new state, or B when the op would block (state unchanged) *)
